@@ -83,12 +83,18 @@ def history_case(idx, payload):
     a = gen.layout(rng, gen.lexemes(m), 'space')
     b = gen.layout(rng, gen.lexemes(m2), 'space')
     res = dict(idx=idx, text=b, first=a, bad=None, runs=0)
+    # every generation has its own options: the first and third ignore some classes (by qualified name), the second none of
+    # them — an ignore list is an option of ONE wrapper object
+    quals = ["::".join(list(p_) + [d_.cls.name]) for p_, content in gen.walk_namespaces(m) for d_ in content if d_.kind == 'cls' and not d_.cls.tmpl]
+    ia = rng.sample(quals, min(len(quals), rng.choice([0, 1, 1, 2])))
+    ib = [] if rng.random() < 0.7 else rng.sample(quals, min(len(quals), 1))
+    res["ignores"] = [ia, ib]
     d = tempfile.mkdtemp(prefix="verif_c14h_")
     try:
         outs = []
-        for name, texts, report in (("seq", [a, b, a], [1, 2]), ("b_alone", [b], [0]), ("a_alone", [a], [0])):
+        for name, texts, report, ign in (("seq", [a, b, a], [1, 2], [ia, ib, ia]), ("b_alone", [b], [0], [ib]), ("a_alone", [a], [0], [ia])):
             jp = os.path.join(d, name + ".json")
-            json.dump(dict(texts=texts, report=report), open(jp, "w", encoding="utf-8"))
+            json.dump(dict(texts=texts, report=report, ignores=ign), open(jp, "w", encoding="utf-8"))
             r = run_script([os.path.join(fw.VERIF, "harness", "c14_history.py"), jp], d, {})
             res["runs"] += 1
             if r.returncode != 0:
@@ -103,7 +109,7 @@ def history_case(idx, payload):
                     if gen_name == "pybind" and x[0] == y[0] == "ok":
                         dd = streams.first_diff(x[1], y[1])
                     res["bad"] = dict(what="%s output for the %s text of a process differs from wrapping it in a fresh process" % (gen_name, label),
-                                      input=t, earlier_inputs=[a, b][:int(k)], **dd)
+                                      input=t, earlier_inputs=[a, b][:int(k)], ignore_lists=[ia, ib, ia][:int(k) + 1], **dd)
                     return res
     finally:
         shutil.rmtree(d, ignore_errors=True)
@@ -149,6 +155,61 @@ def xml_history_case(idx, payload):
     return res
 
 
+def ignore_history_case(idx, payload):
+    """the ignore list is an option of ONE generation: project 1 ignores a class; project 2, generated afterwards in the same
+    process by new wrapper objects with another (or no) ignore list, uses a class of the same simple name as argument type
+    of constructors, methods, static methods and free functions — its outputs are those of a fresh process"""
+    seed, _ = payload
+    rng = random.Random(seed * 1000003 + idx + 515151)
+    nm = rng.choice(["Secret", "Key", "Impl", "Node"])
+    other = rng.choice(["Other", "Helper", "Aux"])
+    ns1, ns2 = rng.sample(["legacy", "app", "core", "v2"], 2)
+    if rng.random() < 0.3:
+        ns2 = ns1
+    a = "namespace %s {\nclass %s { %s(); int id() const; };\nclass %s { %s(); void see(const %s::%s& s) const; };\n}\n" % (ns1, nm, nm, other, other, ns1, nm)
+    mem = []
+    if rng.random() < 0.8:
+        mem.append("User(const %s::%s& s);" % (ns2, nm))
+    if rng.random() < 0.8:
+        mem.append("User(const %s::%s& s, int n);" % (ns2, nm))
+    mem.append("void use(const %s::%s& s, double w) const;" % (ns2, nm))
+    if rng.random() < 0.6:
+        mem.append("void use(int k) const;")
+    if rng.random() < 0.6:
+        mem.append("static int Count(const %s::%s& s);" % (ns2, nm))
+    b = "namespace %s {\nclass %s { %s(); int id() const; };\nclass User { %s };\nint helper(const %s::%s& s);\nint helper(int n);\n}\n" % (
+        ns2, nm, nm, " ".join(mem), ns2, nm)
+    ia, ib = ["%s::%s" % (ns1, nm)], rng.choice([[], [], ["%s::User" % ns2]])
+    res = dict(idx=idx, text=b, first=a, bad=None, runs=0, ignores=[ia, ib])
+    d = tempfile.mkdtemp(prefix="verif_c14i_")
+    try:
+        outs = []
+        for name, texts, report, ign in (("seq", [a, b], [1], [ia, ib]), ("b_alone", [b], [0], [ib])):
+            jp = os.path.join(d, name + ".json")
+            json.dump(dict(texts=texts, report=report, ignores=ign), open(jp, "w", encoding="utf-8"))
+            r = run_script([os.path.join(fw.VERIF, "harness", "c14_history.py"), jp], d, {})
+            res["runs"] += 1
+            if r.returncode != 0:
+                raise RuntimeError("c14_history.py failed: " + r.stderr[-500:])
+            outs.append(json.loads(r.stdout))
+        for gen_name in ("pybind", "matlab"):
+            x, y = outs[1]["0"][gen_name], outs[0]["1"][gen_name]
+            if x != y:
+                dd = {}
+                if gen_name == "matlab" and x[0] == y[0] == "ok":
+                    f = next((k for k in sorted(x[1]) if x[1].get(k) != y[1].get(k)), None)
+                    if f:
+                        dd = dict(file=f, **streams.first_diff(x[1][f], y[1].get(f, "")))
+                elif gen_name == "pybind" and x[0] == y[0] == "ok":
+                    dd = streams.first_diff(x[1], y[1])
+                res["bad"] = dict(what="%s output of a project generated after another project (which ignored %s) differs from generating it in a fresh process"
+                                  % (gen_name, ia), input=b, earlier_inputs=[a], ignore_lists=[ia, ib], **dd)
+                return res
+    finally:
+        shutil.rmtree(d, ignore_errors=True)
+    return res
+
+
 def run_script(args, cwd, env_extra):
     env = dict(os.environ, PYTHONPATH=REPO)
     env.update(env_extra)
@@ -181,8 +242,12 @@ def process_case(idx, payload):
         stems = rng.sample(STEMS, rng.choice([0, 2, 3, 5]))
         subs = []
         for st in stems:
-            sp = os.path.join(base, st + ".i")
-            open(sp, "w", encoding="utf-8").write(gen_text(rng, dict(max_depth=1), serializable=0.3)[1])
+            # the main-module step uses only the NAMES of the submodule files: some exist, some do not exist (yet), some are
+            # given relative to a directory that is not the working directory
+            how = rng.choice(["exists", "exists", "missing", "relative"])
+            sp = os.path.join(base, st + ".i") if how != "relative" else os.path.join("gen", "sub", st + ".i")
+            if how == "exists":
+                open(sp, "w", encoding="utf-8").write(gen_text(rng, dict(max_depth=1), serializable=0.3)[1])
             subs.append(sp)
         api = impl_pybind(text, streams.TPL_MIN, "modx", [''], True, [], stems)
         apim = impl_matlab([text], "modx", [], True)
@@ -353,7 +418,7 @@ def run(ctx, n_reuse, n_proc, off=0, collect=True):
     first = None
     for fn, n, tag in ((reuse_case, n_reuse, "reuse"), (process_case, n_proc, "process"), (history_case, n_proc * 2, "history"),
                        (xml_history_case, 12, "xml_history"), (driver_case, max(10, n_proc), "api_driver"),
-                       (shared_dir_case, max(6, n_proc // 2), "shared_dir")):
+                       (shared_dir_case, max(6, n_proc // 2), "shared_dir"), (ignore_history_case, max(10, n_proc), "ignore_history")):
         for r in fw.run_cases(fn, [(ctx.seed + off, None)] * n):
             if "crash" in r:
                 raise RuntimeError(r["crash"])
